@@ -1,6 +1,6 @@
 (* C14_Proofs7.v — transparency of the mapping: the statement a goroutine executes was prepared
    for the text (and at the level) its operation asked for. *)
-From Verif Require Import Base C14_Model C14_Check C14_Proofs2 C14_Proofs3 C14_Proofs4 C14_Proofs5 C14_Proofs6.
+From Verif Require Import Base C14_Model C14_Count C14_Proofs2 C14_Proofs3 C14_Proofs4 C14_Proofs5 C14_Proofs6.
 
 Definition executing (p : pc) : option nat :=
   match p with X0 st | X1 st | X1r st _ | X2 st | X2b st => Some st | _ => None end.
